@@ -8,6 +8,6 @@ Definition ok (cfg : config) (r : rec) : bool := rec_ok cfg r.
 Definition violations (cfg : config) (t : list rec) : list nat := map fst (filter (fun ir => negb (rec_ok cfg (snd ir))) (combine (seq 0 (List.length t)) t)).
 (* a table must cover the whole product: every vec length x 11 element types x 4 packed qualifiers at least *)
 Definition covers (t : list rec) : bool := (176 <=? Z.of_nat (List.length (filter (fun r => match r with Vec _ _ _ _ _ _ _ _ _ _ _ _ _ => true | _ => false end) t))) &&
-  (108 <=? Z.of_nat (List.length (filter (fun r => match r with Mat _ _ _ _ _ _ _ _ _ _ _ _ _ _ => true | _ => false end) t))) &&
-  (8 <=? Z.of_nat (List.length (filter (fun r => match r with Qua _ _ _ _ _ _ _ _ _ _ _ _ _ _ => true | _ => false end) t))) &&
+  (108 <=? Z.of_nat (List.length (filter (fun r => match r with Mat _ _ _ _ _ _ _ _ _ _ _ _ _ _ _ => true | _ => false end) t))) &&
+  (8 <=? Z.of_nat (List.length (filter (fun r => match r with Qua _ _ _ _ _ _ _ _ _ _ _ _ _ _ _ => true | _ => false end) t))) &&
   (4 <=? Z.of_nat (List.length (filter (fun r => match r with Make _ _ => true | _ => false end) t))).
